@@ -572,7 +572,12 @@ def _s3c(program, res):
         st = n.stmt
         if isinstance(st, ast.Assign) and isinstance(st.targets[0], ast.Subscript) and unparse(st.targets[0].value) == "terms":
             n_st += 1
-            if isinstance(st.value, ast.Constant) and st.value.value is None:
+            key = st.targets[0].slice
+            # a pass-through of the column itself: None (emitted by name) or the column's own name qualified by one side's alias
+            own_name = isinstance(key, ast.Name) and isinstance(st.value, ast.BinOp) and not any(isinstance(x, ast.Constant) and isinstance(x.value, str) and "(" in x.value for x in ast.walk(st.value)) \
+                and any(isinstance(x, ast.Name) and x.id.endswith("_qqn") for x in ast.walk(st.value)) \
+                and {x.id for x in ast.walk(st.value) if isinstance(x, ast.Name)} <= {key.id, "self", "left_qqn", "right_qqn"}
+            if (isinstance(st.value, ast.Constant) and st.value.value is None) or own_name:
                 guards = " ".join(unparse(b.cond) for b, _l in g.lexical_guards(n))
                 if "not in common" in guards:
                     res.ok("C16-S3", "SQL: pass-through term (None) only for columns that are not shared")
@@ -709,7 +714,47 @@ def _s4(program, res):
                     "rows whose key is null collapse into one all-null row (null keys never match) instead of being kept")
     else:
         res.ok("C16-S4", "SQLite full-join emulation does not group the keys")
+    # the emulation must take every key pairing the builder accepts: natural_join(on=[('k', 'j')], jointype='full') is legal
+    refusals = [a for a in ast.walk(fj.node) if isinstance(a, ast.Assert) and "on_a" in unparse(a.test) and "on_b" in unparse(a.test)]
+    if refusals:
+        res.fail_at("C16-S4", fj, "sqlite-full-join-differently-named-keys",
+                    f"`{unparse(refusals[0])[:70]}`: the SQLite FULL join emulation refuses differently named keys — a.natural_join(b, on=[('k','j')], jointype='full') "
+                    f"raises AssertionError in to_sql, Pandas and Polars evaluate it", refusals[0])
+    else:
+        res.ok("C16-S4", "SQLite full-join emulation accepts differently named key pairs")
     res.assumptions.append("pandas.merge matches null keys; polars full join does not coalesce keys unless coalesce=True; SQL joins never match NULL keys")
+
+
+def missing_column_type_rule(program, res, rule="C16-S5"):
+    """the Pandas join / concat refuse columns of incompatible types, judged by the first non-missing cell.  A column with no non-missing cell carries
+    no type (documented: type(None)); taking the type of its first cell makes an all-missing text column float (NaN) and the join that should fill it
+    from the other side is refused"""
+    f = program.func("util", "guess_carried_scalar_type")
+    res.analysed(f)
+    g = cfgmod.build(f.node)
+    idx = [st.targets[0].id for st in ast.walk(f.node) if isinstance(st, ast.Assign) and len(st.targets) == 1 and isinstance(st.targets[0], ast.Name)
+           and "where" in unparse(st.value) and ("isna" in unparse(st.value) or "isnull" in unparse(st.value))]
+    if not idx:
+        raise AnalysisError("guess_carried_scalar_type: the positions of the non-missing cells (numpy.where(~isna)) were not found")
+    name = idx[0]
+    ok = False
+    for t in g.stmt_nodes(("test",)):
+        c = t.cond
+        if not (isinstance(c, ast.Compare) and unparse(c.left) == f"len({name})" and isinstance(t.stmt, ast.If)):
+            continue
+        k = c.comparators[0].value if isinstance(c.comparators[0], ast.Constant) else None
+        empty_when_true = (isinstance(c.ops[0], ast.Lt) and k == 1) or (isinstance(c.ops[0], ast.LtE) and k == 0) or (isinstance(c.ops[0], ast.Eq) and k == 0)
+        empty_when_false = (isinstance(c.ops[0], ast.Gt) and k == 0) or (isinstance(c.ops[0], ast.GtE) and k == 1)
+        arm = t.stmt.body if empty_when_true else (t.stmt.orelse if empty_when_false else [])
+        if any(isinstance(r, ast.Return) and unparse(r.value) == "type(None)" for a in arm for r in ast.walk(a)):
+            ok = True
+    if ok:
+        res.ok(rule, "guess_carried_scalar_type: a column without a non-missing cell has type(None), which every type is compatible with")
+    else:
+        res.fail_at(rule, f, "all-missing-column-typed-by-missing-cell",
+                    "guess_carried_scalar_type falls back to the first cell when no cell is non-missing: an all-missing column is float (NaN) and the Pandas join of a text column "
+                    "that is all missing on one side raises `incompatible column types: {'s': (str, float)}` — exactly the case 'take the right value where the left is null' exists "
+                    "for; Polars and SQLite return the join")
 
 
 def run(program, res, tier):
@@ -722,3 +767,7 @@ def run(program, res, tier):
     _s3(program, res)
     _s3c(program, res)
     _s4(program, res)
+    res.rule("C16-S5", "joins of empty or all-missing inputs keep / ignore column types the way SQL does")
+    from . import c03 as _c03
+    _c03.empty_frame_types_rule(program, res, rule="C16-S5", methods={"_natural_join_step"})
+    missing_column_type_rule(program, res)
